@@ -63,6 +63,7 @@ partial def step (s : St) (line : String) : St × String :=
     | some a, some lo, some hi => (s, showTVs (InfluxVerif.Values.include_ a lo hi))
     | _, _, _ => (s, "bad-op")
   | "reset" :: _ => ({}, "ok")
+  | ["wbig"] => (s, "ok")     -- filler under a measurement nothing reads (rolls the WAL segment over)
   | ["w", arg] =>
     match allSome ((arg.splitOn ";").map parsePt) with
     | some pts => let (s', r) := write s pts; (s', showWrite r)
